@@ -97,10 +97,22 @@ forward = ClosureFn(F, ["impl RouterProxy", "route_ipc_receiver_to_crossbeam_sen
     ],
     safety_props=["C07", "C16", "C17"])
 
+route_new = Fn(F, ["impl RouterProxy", "route_ipc_receiver_to_new_crossbeam_receiver"], ret="r", extra_params="Tracked(g): Tracked<&mut RouteLog>",
+    ensures=[
+        # the forwarding callback runs ON the router thread: if its send could wait for room, a consumer that is slow (or is the
+        # thread calling shutdown) would stop the router from ever reading its shutdown message - shutdown() would never return
+        Clause("router.route_new/ensures.one_route_to_the_returned_receiver_over_an_unbounded_channel",
+               "final(g).routes == old(g).routes.push((ipc_receiver.rid, r.chan, true)) && r.unbounded", ["C17", "C07"]),
+    ],
+    rules=[Rule("B96", r"crossbeam_channel::unbounded\(\)", "cb_unbounded::<T>()", "crossbeam_channel::unbounded at element type T (stub: one fresh channel, sends never wait)"),
+           Rule("B96", r"crossbeam_channel::bounded\(", "cb_bounded::<T>(", "crossbeam_channel::bounded (stub: one fresh channel, sends wait while it is full)"),
+           AppendArg("B97", r"self\.route_ipc_receiver_to_crossbeam_sender\(", "Tracked(&mut *g)", "the sibling routing function as a stub that logs the route", min_count=1)],
+    safety_props=["C17"])
+
 UNIT = Unit(
     name="u6b_proxy",
     prelude=["units/common.rs", "units/u6b_proxy.rs"],
-    groups=[("impl RouterProxy", [add_route, shutdown]), (None, [forward])],
+    groups=[("impl RouterProxy", [add_route, shutdown, route_new]), (None, [forward])],
     props=["C07", "C16", "C17"],
     prelude_clauses={
         "router.proxy/requires.message_sent_under_the_proxy_mutex": ["C17", "C07"],
